@@ -46,29 +46,41 @@ def _any_sym(xs):
 def _b(x):
     if is_sym(x):
         return x
+    if not isinstance(x, (bool, int)) and type(x).__name__ in ('QForall', 'QForall2', 'QGuard'):
+        raise TypeError('a quantified clause must be a top-level clause of a contract, not an operand')
     return z3.BoolVal(bool(x))
+
+
+def _noq(xs):
+    for x in xs:
+        if type(x).__name__ in ('QForall', 'QForall2', 'QGuard'):
+            raise TypeError('a quantified clause must be a top-level clause of a contract, not an operand')
 
 
 def And(*xs):
     xs = [x for x in xs]
+    _noq(xs)
     if _any_sym(xs):
         return z3.And(*[_b(x) for x in xs])
     return all(xs)
 
 
 def Or(*xs):
+    _noq(xs)
     if _any_sym(xs):
         return z3.Or(*[_b(x) for x in xs])
     return any(xs)
 
 
 def Not(x):
+    _noq([x])
     if is_sym(x):
         return z3.Not(x)
     return not x
 
 
 def Implies(a, b):
+    _noq([a, b])
     if is_sym(a) or is_sym(b):
         return z3.Implies(_b(a), _b(b))
     return (not a) or bool(b)
